@@ -129,6 +129,55 @@ def message_actions(repo):
     return out
 
 
+def reload_replay_rules(ctx, rule):
+    """reload_all: initializing before clearing and GetMdib; replay, emptying of the buffer and the switch to `initialized` inside the
+    buffer lock; replay guards; replay before initialized."""
+    repo = ctx.repo
+    rl = repo.method(CM, 'reload_all')
+    g = cfg_of(rl)
+
+    def stores_state(val):
+        return [n for n in g.real_nodes() if n.kind == 'stmt' and isinstance(n.stmt, ast.Assign) and
+                unparse(n.stmt.targets[0]) == 'self._state' and unparse(n.stmt.value).endswith(val)]
+    init_s, done_s = stores_state('.initializing'), stores_state('.initialized')
+    getm = g.nodes_calling('get_mdib')
+    clr = g.nodes_calling('clear') + g.nodes_calling('clear_states')
+    ok = len(init_s) == 1 and len(done_s) == 1 and bool(getm) and bool(clr) and \
+        all(g.dominates(init_s[0], x) for x, _ in getm + clr) and g.dominates(getm[0][0], done_s[0])
+    ctx.ob(rule, 'initializing before clearing and GetMdib', ok,
+           'reload_all switches to `initializing` (reports are buffered) before it clears the tables and requests the MDIB',
+           fi=rl)
+    in_mdib = all(g.held_withs(n, 'mdib_lock') for n in init_s + done_s + [x for x, _ in getm + clr])
+    ctx.ob(rule, 'reload under mdib_lock', in_mdib, 'the whole reload runs inside `with self.mdib_lock`', fi=rl)
+    replay = [(n, c) for n, c in g.nodes_where(lambda a: isinstance(a, ast.Call) and unparse(a.func).endswith('.handler'))]
+    # the buffer is emptied: `del buf[:]`, `buf.clear()` or `buf[:] = []`
+    dels = [n for n in g.real_nodes() if n.kind == 'stmt' and isinstance(n.stmt, ast.Delete) and
+            '_buffered_notifications' in unparse(n.stmt)]
+    dels += [n for n, c in g.nodes_calling('clear') if '_buffered_notifications' in unparse(c.func)]
+    dels += [n for n in g.real_nodes() if n.kind == 'stmt' and isinstance(n.stmt, ast.Assign) and
+             isinstance(n.stmt.targets[0], ast.Subscript) and '_buffered_notifications' in unparse(n.stmt.targets[0].value) and
+             isinstance(n.stmt.value, (ast.List, ast.Tuple)) and not n.stmt.value.elts]
+    inside = bool(replay) and bool(dels) and bool(done_s) and \
+        all(g.held_withs(n, '_buffered_notifications_lock') for n in [x for x, _ in replay] + dels + done_s)
+    ctx.ob(rule, 'replay and switch to initialized under the buffer lock', inside,
+           'the replay of buffered reports, the emptying of the buffer and the switch to `initialized` happen inside '
+           '`with self._buffered_notifications_lock`' if inside else
+           'the switch to `initialized` (or the replay / buffer reset) is outside the buffer lock: a report that arrives '
+           'in the gap is appended to the buffer after the replay and is never applied', fi=rl,
+           witness={'replay': [n.lineno for n, _ in replay], 'initialized_store': [n.lineno for n in done_s]})
+    ok = bool(replay)
+    for n, c in replay:
+        facts = g.facts_at(n)
+        ok = ok and any('sequence_id == self.sequence_id' in t and p is True for t, p in facts.both())
+        ok = ok and any('mdib_version <= self.mdib_version' in t and p is False for t, p in facts.both())
+    ctx.ob(rule, 'replay guards', ok,
+           'a buffered report is replayed only if its sequence id is the loaded one and its MdibVersion is newer', fi=rl)
+    ok = bool(replay) and bool(dels) and bool(done_s) and all(g.dominates(dels[0], d) or g.dominates(d, dels[0]) for d in done_s) \
+        and not any(g.path_exists(done_s[0], r) for r, _ in replay)
+    ctx.ob(rule, 'replay before initialized', ok, 'all buffered reports are replayed before the state becomes '
+           '`initialized`', fi=rl)
+
+
 def run(ctx):  # noqa: C901, PLR0912, PLR0915
     repo = ctx.repo
     ctx.rule('C01.R1', 'routing closure provider field -> report/action -> consumer observable -> handler -> table update')
@@ -235,6 +284,8 @@ def run(ctx):  # noqa: C901, PLR0912, PLR0915
     from . import common
     common.version_group_setters_total(ctx, 'C01.R1')
     common.reconstruction_is_uncached(ctx, 'C01.R4')   # a consumer that initialises later gets the current description
+    from .c04 import description_report_parts
+    description_report_parts(ctx, 'C01.R1')   # what the consumer is told about descriptors is complete
     common.observers_all_notified(ctx, 'C01.R1')   # every commit reaches the report sender
     # ------------------------------------------------------------------ R2
     upd_funcs = {}
@@ -355,49 +406,7 @@ def run(ctx):  # noqa: C901, PLR0912, PLR0915
     b, r = g.nodes_calling('bind_to_client_observables'), g.nodes_calling('reload_all')
     ctx.ob('C01.R4', 'bind before load', bool(b) and bool(r) and g.dominates(b[0][0], r[0][0]),
            'init_mdib binds to the notification observables before it requests the MDIB (no report is missed)', fi=im)
-    rl = repo.method(CM, 'reload_all')
-    g = cfg_of(rl)
-
-    def stores_state(val):
-        return [n for n in g.real_nodes() if n.kind == 'stmt' and isinstance(n.stmt, ast.Assign) and
-                unparse(n.stmt.targets[0]) == 'self._state' and unparse(n.stmt.value).endswith(val)]
-    init_s, done_s = stores_state('.initializing'), stores_state('.initialized')
-    getm = g.nodes_calling('get_mdib')
-    clr = g.nodes_calling('clear') + g.nodes_calling('clear_states')
-    ok = len(init_s) == 1 and len(done_s) == 1 and bool(getm) and bool(clr) and \
-        all(g.dominates(init_s[0], x) for x, _ in getm + clr) and g.dominates(getm[0][0], done_s[0])
-    ctx.ob('C01.R4', 'initializing before clearing and GetMdib', ok,
-           'reload_all switches to `initializing` (reports are buffered) before it clears the tables and requests the MDIB',
-           fi=rl)
-    in_mdib = all(g.held_withs(n, 'mdib_lock') for n in init_s + done_s + [x for x, _ in getm + clr])
-    ctx.ob('C01.R4', 'reload under mdib_lock', in_mdib, 'the whole reload runs inside `with self.mdib_lock`', fi=rl)
-    replay = [(n, c) for n, c in g.nodes_where(lambda a: isinstance(a, ast.Call) and unparse(a.func).endswith('.handler'))]
-    # the buffer is emptied: `del buf[:]`, `buf.clear()` or `buf[:] = []`
-    dels = [n for n in g.real_nodes() if n.kind == 'stmt' and isinstance(n.stmt, ast.Delete) and
-            '_buffered_notifications' in unparse(n.stmt)]
-    dels += [n for n, c in g.nodes_calling('clear') if '_buffered_notifications' in unparse(c.func)]
-    dels += [n for n in g.real_nodes() if n.kind == 'stmt' and isinstance(n.stmt, ast.Assign) and
-             isinstance(n.stmt.targets[0], ast.Subscript) and '_buffered_notifications' in unparse(n.stmt.targets[0].value) and
-             isinstance(n.stmt.value, (ast.List, ast.Tuple)) and not n.stmt.value.elts]
-    inside = bool(replay) and bool(dels) and bool(done_s) and \
-        all(g.held_withs(n, '_buffered_notifications_lock') for n in [x for x, _ in replay] + dels + done_s)
-    ctx.ob('C01.R4', 'replay and switch to initialized under the buffer lock', inside,
-           'the replay of buffered reports, the emptying of the buffer and the switch to `initialized` happen inside '
-           '`with self._buffered_notifications_lock`' if inside else
-           'the switch to `initialized` (or the replay / buffer reset) is outside the buffer lock: a report that arrives '
-           'in the gap is appended to the buffer after the replay and is never applied', fi=rl,
-           witness={'replay': [n.lineno for n, _ in replay], 'initialized_store': [n.lineno for n in done_s]})
-    ok = bool(replay)
-    for n, c in replay:
-        facts = g.facts_at(n)
-        ok = ok and any('sequence_id == self.sequence_id' in t and p is True for t, p in facts.both())
-        ok = ok and any('mdib_version <= self.mdib_version' in t and p is False for t, p in facts.both())
-    ctx.ob('C01.R4', 'replay guards', ok,
-           'a buffered report is replayed only if its sequence id is the loaded one and its MdibVersion is newer', fi=rl)
-    ok = bool(replay) and bool(dels) and bool(done_s) and all(g.dominates(dels[0], d) or g.dominates(d, dels[0]) for d in done_s) \
-        and not any(g.path_exists(done_s[0], r) for r, _ in replay)
-    ctx.ob('C01.R4', 'replay before initialized', ok, 'all buffered reports are replayed before the state becomes '
-           '`initialized`', fi=rl)
+    reload_replay_rules(ctx, 'C01.R4')
     pc = repo.method(CM, '_pre_check_report_ok')
     g = cfg_of(pc)
     app = [n for n, c in g.nodes_calling('append') if '_buffered_notifications' in unparse(c.func)]
